@@ -17,6 +17,9 @@
 #ifndef PERM
 #define PERM 0
 #endif
+#ifndef NSYM
+#define NSYM 0
+#endif
 #define SOH 1
 struct tokdef { const char *txt; uint8_t len; uint32_t num; };
 static const struct tokdef MENU[] = {
@@ -51,6 +54,9 @@ static void tok_fixed(const char *tag, int tl, uint32_t num, uint8_t v, int drop
 static void tok_x(int i)
 {
   uint8_t c = nondet_u8(), v0 = nondet_u8(), v1 = nondet_u8(), vl = nondet_u8();
+#ifdef FIXCH
+  if (i >= NSYM) { c = FIXCH; vl = 1; }
+#endif
   VF_ASSUME(c == ABSENT || c < NMENU); VF_ASSUME(vl >= 1 && vl <= 2);
   VF_ASSUME(v0 != SOH && v0 != 0 && v1 != SOH && v1 != 0);     /* string values: no separator, no NUL (C06 covers raw data) */
 #ifdef MENUMASK
@@ -69,7 +75,11 @@ int main(void)
   W_setup();
   /* ---- build the message */
   puts_("8=FIX.4.2\001" "9=12\001" "35=A\001", 20);   /* (adjacent literals: CBMC misreads an octal escape followed by a digit) */
-  uint8_t drop = nondet_u8(); VF_ASSUME(drop <= 6); cx_drop = drop;
+  uint8_t drop = nondet_u8(); VF_ASSUME(drop <= 6);
+#ifdef DROP
+  drop = DROP;
+#endif
+  cx_drop = drop;
   tok_x(0);
   tok_fixed("49", 2, 49, 'a', drop == 1); tok_fixed("56", 2, 56, 'b', drop == 2); tok_fixed("34", 2, 34, '1', drop == 3); tok_fixed("52", 2, 52, 't', drop == 4);
   tok_x(1);
@@ -88,7 +98,7 @@ int main(void)
   W_sum = nondet_u32(); VF_ASSUME(W_sum < 256); cx_sum = W_sum;        /* the byte sum of the message (calc_chksum's contract, C07) */
   uint8_t nochk = nondet_u8() & 1; cx_nochk = nochk;
 #ifdef NOCHK
-  VF_ASSUME(nochk == NOCHK);
+  nochk = NOCHK;
 #endif
   /* ---- reference acceptor */
   int conform = 1, order_ok = 1, wrap = 0, autodup = 0, region = 0, regw = 0, nexp = 0;
